@@ -1,0 +1,48 @@
+//go:build verif
+
+package taint
+
+// Machine-checked contracts (comment-only; build tag `verif`); read by /verif/govc.
+
+// C02 (validator half): an edge is dropped because of a validator only on the
+// branch where the validator returned true (or a nil error). isValidatorCondition
+// (ts, v, isPositive) decides whether "v evaluates to isPositive" is such a branch.
+//
+// sem(v, pos) is the run-time meaning of the branch: for a boolean v, "v == pos";
+// for an error value v, "(v == nil) == pos". accepted(v) means: the value v derives
+// from a call that matched a validator specification and that call reported success.
+// The sem_*/acc_* axioms are Go's semantics of !, ==nil, !=nil and tuple extraction
+// (trusted; listed in the evidence). The postcondition `sound` is the property.
+
+//@ property C02
+//@ spec sem(v ssa.Value, pos bool) bool
+//@ spec accepted(v ssa.Value) bool
+//@ spec matched(n ssa.Node) bool
+//@ macro U(v) = v.(*ssa.UnOp)
+//@ macro B(v) = v.(*ssa.BinOp)
+//@ macro E(v) = v.(*ssa.Extract)
+//@ axiom sem_not: forall v ssa.Value, pos bool :: istype(v, *ssa.UnOp) && U(v).Op == token.NOT ==> (sem(v, pos) <==> sem(U(v).X, !pos))
+//@ axiom acc_not: forall v ssa.Value :: istype(v, *ssa.UnOp) && U(v).Op == token.NOT ==> (accepted(v) <==> accepted(U(v).X))
+//@ axiom sem_eq_nil_r: forall v ssa.Value, pos bool :: istype(v, *ssa.BinOp) && B(v).Op == token.EQL && B(v).Y.String() == "nil:error" ==> (sem(v, pos) <==> sem(B(v).X, pos))
+//@ axiom sem_eq_nil_l: forall v ssa.Value, pos bool :: istype(v, *ssa.BinOp) && B(v).Op == token.EQL && B(v).X.String() == "nil:error" ==> (sem(v, pos) <==> sem(B(v).Y, pos))
+//@ axiom sem_neq_nil_r: forall v ssa.Value, pos bool :: istype(v, *ssa.BinOp) && B(v).Op == token.NEQ && B(v).Y.String() == "nil:error" ==> (sem(v, pos) <==> sem(B(v).X, !pos))
+//@ axiom sem_neq_nil_l: forall v ssa.Value, pos bool :: istype(v, *ssa.BinOp) && B(v).Op == token.NEQ && B(v).X.String() == "nil:error" ==> (sem(v, pos) <==> sem(B(v).Y, !pos))
+//@ axiom acc_nil_r: forall v ssa.Value :: istype(v, *ssa.BinOp) && B(v).Y.String() == "nil:error" ==> (accepted(v) <==> accepted(B(v).X))
+//@ axiom acc_nil_l: forall v ssa.Value :: istype(v, *ssa.BinOp) && B(v).X.String() == "nil:error" ==> (accepted(v) <==> accepted(B(v).Y))
+//@ axiom sem_extract: forall v ssa.Value, pos bool :: istype(v, *ssa.Extract) ==> (sem(v, pos) <==> sem(E(v).Tuple, pos))
+//@ axiom acc_extract: forall v ssa.Value :: istype(v, *ssa.Extract) ==> (accepted(v) <==> accepted(E(v).Tuple))
+//@ axiom acc_call: forall v ssa.Value :: istype(v, *ssa.Call) && matched(v.(*ssa.Call)) && sem(v, true) ==> accepted(v)
+
+// Assumed: a true answer of the code-identifier matcher means the node matched the
+// oracle it was given (here: ts.IsValidator).
+//@ func IsMatchingCodeIDWithCallee
+//@   property C02
+//@   assumed
+//@   ensures result ==> matched(n)
+
+//@ func isValidatorCondition
+//@   property C02
+//@   requires ts != nil
+//@   ensures sound: result ==> (sem(v, isPositive) ==> accepted(v))
+//@   ensures nil_false: v == nil ==> !result
+//@   ensures only_conditions: result ==> istype(v, *ssa.Call) || istype(v, *ssa.BinOp) || istype(v, *ssa.UnOp) || istype(v, *ssa.Extract)
